@@ -30,6 +30,7 @@ type conn struct {
 	results  map[int]chan data
 	lock     sync.Mutex
 	counter  int32
+	closed   error
 	onClose  func(net.Conn)
 	once     sync.Once
 }
@@ -63,10 +64,15 @@ func newConn(ctx context.Context, onConnect func(net.Conn) net.Conn, onClose fun
 	}, nil
 }
 
-func (c *conn) store(index int, resultChan chan data) {
+// store registers a pending call, unless the connection has been closed: nobody
+// would ever answer or fail it then.
+func (c *conn) store(index int, resultChan chan data) (err error) {
 	c.lock.Lock()
-	c.results[index] = resultChan
+	if err = c.closed; err == nil {
+		c.results[index] = resultChan
+	}
 	c.lock.Unlock()
+	return
 }
 
 func (c *conn) delete(index int) {
@@ -103,7 +109,9 @@ func (c *conn) Transport(ctx context.Context, request []byte) (response []byte, 
 	verifYield("before-register")
 	index := int(atomic.AddInt32(&c.counter, 1) & 0x7fffffff)
 	resultChan := make(chan data, 1)
-	c.store(index, resultChan)
+	if err = c.store(index, resultChan); err != nil {
+		return nil, err
+	}
 	verifYield("registered")
 	select {
 	case <-ctx.Done():
@@ -221,6 +229,14 @@ func (c *conn) Close(err error) {
 		c.onClose(c.Conn)
 		_ = c.Conn.Close()
 	})
+	if err == nil {
+		err = core.ErrClosed
+	}
+	c.lock.Lock()
+	if c.closed == nil {
+		c.closed = err
+	}
+	c.lock.Unlock()
 	verifYield("before-clean")
 	c.rangeAndClean(func(index int, resultChan chan data) {
 		resultChan <- data{
